@@ -3,7 +3,7 @@ C16 - parsing time stays bounded on any input of ordinary size.
 
 Pumping families  prefix + unit^n + suffix  (n doubling up to the length bound) for every unit
 from an alphabet that is *derived from the compiled regex patterns at run time* plus a list of
-short tokens, in 10 contexts x 5 suffixes; thorough adds all two-unit alternations; both tiers
+short tokens, in 12 contexts x 7 suffixes; thorough adds all two-unit alternations; both tiers
 add structural repetition.  Each text is parsed by the real PLSSDesc(text, parse_qq=True) in a
 worker; CPU time is measured inside, a hard deadline is enforced by the parent (kill + respawn,
 re-run once in a fresh worker before a timeout is believed).
@@ -19,13 +19,13 @@ LEVEL = 'exploration'
 TECHNIQUE = ('exhaustive enumeration of pumping families (unit alphabet derived from the regex patterns) x contexts x suffixes x '
              'doubling lengths up to a bound, CPU-time oracle in killable isolated workers')
 LEVEL_TEXT = ('Every unit of a run-time derived alphabet (every literal character and character-class member of every compiled '
-              'pattern in pytrs.parser.rgxlib, plus ~45 short tokens) is pumped in 10 contexts x 5 suffixes with n = 4, 8, 16, ... up to '
+              'pattern in pytrs.parser.rgxlib, plus ~45 short tokens) is pumped in 12 contexts x 7 suffixes with n = 4, 8, 16, ... up to '
               '300 (quick) / 600 (thorough) characters; thorough adds all two-unit alternations; structural repetition (repeated '
               'Twp/Rge lines, section headers, lots, lists, aliquots, chains) is included. The oracle is a measured resource '
               '(CPU seconds), so this is labelled exploration rather than model checking; the enumeration itself is exhaustive '
               'within the stated family bound.')
 LEVEL_NOTE = ('Trusted: time.process_time() inside the worker and the parent-side kill deadline. Super-linear behaviour that needs '
-              'three or more distinct alternating units, or a context outside the 10 prefixes, is not covered. Threshold: 2.0 s CPU.')
+              'three or more distinct alternating units, or a context outside the 12 prefixes, is not covered. Threshold: 2.0 s CPU.')
 RULE = (
     "case = (mode, prefix, unit or unit pair, suffix, n); n doubles from 4 until the text exceeds the length bound; each case is "
     "one timed execution of PLSSDesc(text, parse_qq=True). Non-trivial = every distinct text (texts are deduplicated per family). "
@@ -33,7 +33,7 @@ RULE = (
 )
 ASSUMPTIONS = [
     "CPU time of a single-threaded worker is a faithful proxy for 'takes more than a couple of seconds'",
-    "pumping a single unit or an alternation of two units in 10 contexts reaches the super-linear behaviours of the patterns",
+    "pumping a single unit or an alternation of two units in 12 contexts reaches the super-linear behaviours of the patterns",
 ]
 LIMIT = 2.0
 MAXLEN = {'quick': 300, 'thorough': 600}
@@ -51,8 +51,10 @@ PREFIXES = [
     'T154N-R97W Sec 14: That part of the ',
     'T154N-R97W Sec 14: Lot 1 (',
     'T154N-R97W Sec 14: Lot 1 [',
+    'Section 4',
+    'NE/4 of Section 4',
 ]
-SUFFIXES = ['', ' x', ' P.M.', ': NE/4', ' Sec 15: Lot 2, T155N-R97W']
+SUFFIXES = ['', ' x', ' P.M.', ': NE/4', ' Sec 15: Lot 2, T155N-R97W', ' T155N-R97W: NE/4', ', T155N-R97W']
 TOKENS = ['. ', ', ', '; ', ': ', '- ', ' - ', 'and ', ' and ', '& ', ' of ', ' the ', ' of the ', ' to ', ' thru ', ' through ',
           'Sec ', 'Sec. ', 'Section ', '1 ', '1, ', '14 ', '1 - ', 'Lot ', 'Lots ', 'Lot 1 ', 'L1 ', 'N/2', 'N/2 ', 'NE', 'NE ', 'NE/4',
           'N½', 'NE¼', 'North ', 'Half ', 'Quarter ', 'T154N-R97W\n', 'T154N ', 'R97W ', '154N ', 'P.M. ', 'PM', '(40.00) ', '( ', '[ ',
